@@ -5,7 +5,8 @@ ids="$*"
 [ -z "$ids" ] && ids="14 16 11 10 17 12 06 07 15 13 18 09 02 05 08 04 03 01"
 for i in $ids; do
   s=$(date +%s)
-  out=$(bin/check C$i --tier thorough 2>&1 | tail -1)
+  all=$(bin/check C$i --tier thorough 2>&1)
   e=$(date +%s)
-  echo "C$i $((e-s))s $out"
+  echo "$all" | grep -E "^(INCONCLUSIVE|VIOLATION)" | cut -c1-400 | head -5
+  echo "C$i $((e-s))s $(echo "$all" | tail -1)"
 done
